@@ -326,7 +326,11 @@ class _Zip(ToolBase):
         equal = g.ch.chance(1, 3)
         base = g.ch.draw(g.cfg.max_len + 1)
         srcs = [g.src(g.sprinkle(g.items(base if equal else None))) for _ in range(n)]
-        return Spec("zip", srcs, [], {"strict": g.ch.chance(1, 2), "alias": g.alias(srcs)})
+        strict = g.ch.chance(1, 2)
+        if strict and n >= 3 and g.ch.chance(1, 3):
+            # the first argument ends first: the strict check then has to look at the others in order
+            srcs.sort(key=lambda p: len(p.items))
+        return Spec("zip", srcs, [], {"strict": strict, "alias": g.alias(srcs)})
 
     def a(self, L, spec, S, F):
         return L.zip(*S, strict=spec.p["strict"])
